@@ -1903,4 +1903,291 @@ theorem run_fail_dead (q : Quirks) (s : Proto) (is : List Inp) (a : Nat) (hw : W
         · exact Or.inr h
 
 
+/-! ### results addressed to an old attempt leave every other live attempt alone -/
+
+theorem find_cons (x : Attempt) (rest : List Attempt) (b : Nat) :
+    find (x :: rest) b = if x.id == b then some x else find rest b := by
+  unfold find
+  rw [List.find?_cons]
+  split <;> simp_all
+
+theorem find_map_id (f : Attempt → Attempt) (hf : ∀ x, (f x).id = x.id) (l : List Attempt) (b : Nat) :
+    find (l.map f) b = (find l b).map f := by
+  induction l with
+  | nil => rfl
+  | cons x rest ih =>
+    rw [List.map_cons, find_cons, find_cons, hf x]
+    split
+    · rfl
+    · exact ih
+
+theorem find_upd_ne (l : List Attempt) (a b : Nat) (f : Attempt → Attempt) (hf : ∀ x, (f x).id = x.id) (hne : b ≠ a) :
+    find (upd l a f) b = find l b := by
+  induction l with
+  | nil => rfl
+  | cons x rest ih =>
+    unfold upd at ih ⊢
+    rw [List.map_cons, find_cons, find_cons]
+    by_cases hxa : (x.id == a) = true
+    · simp only [hxa, if_true, hf x]
+      have : (x.id == b) = false := by
+        have : x.id = a := by simpa using hxa
+        simp [this, Ne.symm hne]
+      simp only [this, Bool.false_eq_true, if_false]
+      exact ih
+    · simp only [hxa, Bool.false_eq_true, if_false]
+      split
+      · rfl
+      · exact ih
+
+theorem find_upd_eq (l : List Attempt) (a : Nat) (f : Attempt → Attempt) (hf : ∀ x, (f x).id = x.id) :
+    find (upd l a f) a = (find l a).map f := by
+  induction l with
+  | nil => rfl
+  | cons x rest ih =>
+    unfold upd at ih ⊢
+    rw [List.map_cons, find_cons, find_cons]
+    by_cases hxa : (x.id == a) = true
+    · simp [hxa, hf x]
+    · simp only [hxa, Bool.false_eq_true, if_false]
+      exact ih
+
+theorem deadChain_map (f : Attempt → Attempt) (hf : ∀ x, (f x).id = x.id ∧ (f x).terminated = x.terminated ∧ (f x).parent = x.parent) :
+    ∀ (l : List Attempt) (b : Nat), deadChain (l.map f) b = deadChain l b := by
+  intro l
+  induction l with
+  | nil => intro b; rfl
+  | cons x rest ih =>
+    intro b
+    simp only [List.map_cons, deadChain, (hf x).1, (hf x).2.1, (hf x).2.2]
+    split
+    · cases x.parent with
+      | none => rfl
+      | some pi => simp only [ih]
+    · exact ih b
+
+theorem deadChain_found (l : List Attempt) (b : Nat) (y : Attempt) (hf : find l b = some y) (hd : deadChain l b = false) :
+    y.terminated = false := by
+  induction l with
+  | nil => cases hf
+  | cons x rest ih =>
+    rw [find_cons] at hf
+    simp only [deadChain] at hd
+    split at hf
+    · rename_i hxb
+      cases hf
+      simp only [hxb, if_true, Bool.or_eq_false_iff] at hd
+      exact hd.1
+    · rename_i hxb
+      simp only [hxb, Bool.false_eq_true, if_false] at hd
+      exact ih hf hd
+
+theorem deadChain_of_found (l : List Attempt) (a : Nat) (x : Attempt) (hf : find l a = some x) (ht : x.terminated = true) :
+    deadChain l a = true := by
+  induction l with
+  | nil => cases hf
+  | cons y rest ih =>
+    rw [find_cons] at hf
+    simp only [deadChain]
+    split at hf
+    · rename_i hya
+      cases hf
+      simp [hya, ht]
+    · rename_i hya
+      simp only [hya, Bool.false_eq_true, if_false]
+      exact ih hf
+
+theorem markOwn_id (i : Nat) (x : Attempt) : (markOwn i x).id = x.id := rfl
+theorem markEnclosing_id (i : Nat) (x : Attempt) : (markEnclosing i x).id = x.id := by
+  unfold markEnclosing; split <;> rfl
+
+/-- marking up the chain of a dropped event leaves alone every attempt that is neither the event's nor dead -/
+theorem find_markUp : ∀ (l : List Attempt) (a i : Nat) (own : Bool) (b : Nat), b ≠ a → deadChain l b = false →
+    find (markUp false l a i own) b = find l b := by
+  intro l
+  induction l with
+  | nil => intro a i own b _ _; rfl
+  | cons x rest ih =>
+    intro a i own b hne hd
+    simp only [markUp, Bool.false_or]
+    by_cases hxa : (x.id == a) = true
+    · have hxb : (x.id == b) = false := by
+        have : x.id = a := by simpa using hxa
+        simp [this, Ne.symm hne]
+      have hdr : deadChain rest b = false := by simpa [deadChain, hxb] using hd
+      simp only [hxa, if_true]
+      have hid : ∀ own', ((if own' = true then markOwn i x else markEnclosing i x).id == b) = false := by
+        intro own'
+        split
+        · rw [markOwn_id]; exact hxb
+        · rw [markEnclosing_id]; exact hxb
+      cases hp : x.parent with
+      | none =>
+        simp only
+        rw [find_cons, find_cons, hid, hxb]
+        rfl
+      | some pi =>
+        obtain ⟨p, pj⟩ := pi
+        simp only
+        split
+        · rename_i hdp
+          rw [find_cons, find_cons, hid, hxb]
+          simp only [Bool.false_eq_true, if_false]
+          apply ih
+          · intro hbp; rw [hbp, hdp] at hdr; cases hdr
+          · exact hdr
+        · rw [find_cons, find_cons, hid, hxb]
+          rfl
+    · simp only [hxa, Bool.false_eq_true, if_false]
+      rw [find_cons, find_cons]
+      split
+      · rfl
+      · rename_i hxb
+        apply ih _ _ _ _ hne
+        simpa [deadChain, hxb] using hd
+
+/-- `checkPending` of a running execution leaves alone every attempt that is not terminated -/
+theorem find_cp (s : Proto) (b : Nat) (hrun : s.ended = none) (hb : ∀ y, find s.atts b = some y → y.terminated = false) :
+    find (checkPending s).1.atts b = find s.atts b := by
+  rw [cp_state]
+  simp only [hrun, Option.isSome_none, Bool.false_and, Bool.false_eq_true, if_false]
+  unfold cpAtts
+  rw [find_map_id _ (by intro x; split <;> rfl)]
+  cases hf : find s.atts b with
+  | none => rfl
+  | some y =>
+    have := hb y hf
+    simp [visited, this, hrun]
+
+
+/-- a Task.Terminated callback arriving at a terminated attempt changes nothing but that attempt's slot -/
+theorem find_bubble_tt (e : Bool) : ∀ (l : List Attempt) (a i : Nat) (hs : List Handled) (x : Attempt) (b : Nat),
+    find l a = some x → x.terminated = true → b ≠ a →
+    find (bubble Quirks.none e l a i (.fail .taskTerminated hs)).atts b = find l b := by
+  intro l
+  induction l with
+  | nil => intro a i hs x b hf; cases hf
+  | cons y rest ih =>
+    intro a i hs x b hf ht hne
+    rw [find_cons] at hf
+    simp only [bubble]
+    by_cases hya : (y.id == a) = true
+    · simp only [hya, if_true] at hf ⊢
+      cases hf
+      have hyb : (y.id == b) = false := by
+        have : y.id = a := by simpa using hya
+        simp [this, Ne.symm hne]
+      split
+      · rfl
+      · simp only [ht, Quirks.none, Bool.not_false, Bool.or_true, Bool.and_self, if_true]
+        rw [find_cons, find_cons]
+        simp [hyb]
+    · simp only [hya, Bool.false_eq_true, if_false] at hf ⊢
+      simp only [Walk.under]
+      rw [find_cons, find_cons]
+      split
+      · rfl
+      · exact ih _ _ _ _ _ hf ht hne
+
+theorem finish_find (s : Proto) (w : Walk) (b : Nat) (hrun : s.ended = none) (hend : w.endNow = none)
+    (hb : ∀ y, find w.atts b = some y → y.terminated = false) : find (finish s w).1.atts b = find w.atts b := by
+  unfold finish
+  simp only [hend, Option.isSome_none, Bool.false_eq_true, if_false, Bool.or_false]
+  split
+  · exact find_cp _ b hrun hb
+  · rfl
+
+/-- (vi) in the repaired protocol an input addressed to a terminated attempt `a` — a late event, deferred handler, reply or
+cancellation callback of one of its branches — changes no other attempt `b` that is alive (neither it nor an attempt
+enclosing it is terminated), e.g. the fresh attempt a Retry launched, and produces nothing but tidy-up outputs -/
+theorem old_attempt_inputs_inert (s : Proto) (a b i : Nat) (x : Attempt) (inp : Inp)
+    (hrun : s.ended = none) (hx : find s.atts a = some x) (ht : x.terminated = true)
+    (hne : b ≠ a) (hb : deadChain s.atts b = false)
+    (hinp : (∃ k, inp = .event a i k) ∨ (∃ k, inp = .deferred a i k) ∨ (∃ k, inp = .reply a i k) ∨ inp = .echo a i) :
+    find (step Quirks.none s inp).1.atts b = find s.atts b ∧ ∀ o ∈ (step Quirks.none s inp).2, o.quiet = true := by
+  have hlive : ∀ y, find s.atts b = some y → y.terminated = false := fun y hy => deadChain_found _ _ _ hy hb
+  have via : find (viaLookup Quirks.none s a i Kont.goesOn).1.atts b = find s.atts b ∧
+      (∀ k, viaLookup Quirks.none s a i k = viaLookup Quirks.none s a i Kont.goesOn) ∧
+      ∀ o ∈ (viaLookup Quirks.none s a i Kont.goesOn).2, o.quiet = true := by
+    unfold viaLookup
+    have hq := lookup_quiet Quirks.none s a i
+    rcases lookup_cases Quirks.none s a i with h | h | ⟨x', hx', _, h⟩ | ⟨x', hx', hd, h⟩
+    · rw [h.1] at hq ⊢; exact ⟨rfl, fun _ => rfl, hq⟩
+    · rw [h] at hq ⊢; exact ⟨rfl, fun _ => rfl, hq⟩
+    · rw [h] at hq ⊢
+      refine ⟨?_, fun _ => rfl, hq⟩
+      simp only
+      have hseen : find (seenAtts s a) b = find s.atts b := find_upd_ne _ _ _ _ (fun _ => rfl) hne
+      have hdc : deadChain (seenAtts s a) b = false := by
+        unfold seenAtts upd
+        rw [deadChain_map _ (by intro y; split <;> exact ⟨rfl, rfl, rfl⟩)]
+        exact hb
+      have hmk : find (marked Quirks.none s a i) b = find s.atts b := by
+        unfold marked
+        simp only [Quirks.none, Bool.false_eq_true, if_false, hrun, Option.isSome_none]
+        rw [find_markUp _ _ _ _ _ hne hdc, hseen]
+      exact (find_cp { s with hasMeta := true, atts := marked Quirks.none s a i } b hrun
+        (by intro y hy; exact hlive y (hmk ▸ hy))).trans hmk
+    · exfalso
+      rw [hx] at hx'
+      cases hx'
+      simp [isDead, Quirks.none, deadChain_of_found _ _ _ hx ht] at hd
+  rcases hinp with ⟨k, rfl⟩ | ⟨k, rfl⟩ | ⟨k, rfl⟩ | rfl
+  · simp only [step]; rw [via.2.1 k]; exact ⟨via.1, via.2.2⟩
+  · simp only [step]; rw [via.2.1 k]; exact ⟨via.1, via.2.2⟩
+  · simp only [step, hx]
+    cases hs : x.slots[i]? with
+    | none => exact ⟨rfl, by intro o ho; simp at ho; subst ho; rfl⟩
+    | some sl =>
+      by_cases hg : (x.seen && sl.cancellable) = true
+      · simp only [hg, ht, if_true]
+        have hfa : find (upd s.atts a (setSlot i Slot.disarm)) a = some (setSlot i Slot.disarm x) := by
+          rw [find_upd_eq _ _ _ (by intro y; unfold setSlot; split <;> rfl), hx]; rfl
+        have hta : (setSlot i Slot.disarm x).terminated = true := by
+          unfold setSlot; split <;> exact ht
+        have hfb : find (upd s.atts a (setSlot i Slot.disarm)) b = find s.atts b :=
+          find_upd_ne _ _ _ _ (by intro y; unfold setSlot; split <;> rfl) hne
+        have hw := find_bubble_tt s.ended.isSome _ a i [] _ b hfa hta hne
+        refine ⟨?_, finish_quiet _ _ (bub_tt _ _ _ _ _ _).1⟩
+        exact (finish_find { s with atts := upd s.atts a (setSlot i Slot.disarm) } _ b hrun (bub_tt _ _ _ _ _ _).2
+          (by intro y hy; exact hlive y (hfb ▸ hw ▸ hy))).trans (hw.trans hfb)
+      · simp only [hg, Bool.false_eq_true, if_false]
+        exact ⟨trivial, by intro o ho; simp at ho; subst ho; rfl⟩
+  · simp only [step, hx]
+    split
+    · have hw := find_bubble_tt s.ended.isSome _ a i [] _ b hx ht hne
+      refine ⟨?_, finish_quiet _ _ (bub_tt _ _ _ _ _ _).1⟩
+      exact (finish_find s _ b hrun (bub_tt _ _ _ _ _ _).2 (by intro y hy; exact hlive y (hw ▸ hy))).trans hw
+    · exact ⟨rfl, by intro o ho; simp at ho; subst ho; rfl⟩
+
+
+/-- once an ending has been output the execution is ended -/
+theorem run_end_ended (s : Proto) (is : List Inp) (ok : Bool) (h : Out.endExecution ok ∈ (run Quirks.none s is).2) :
+    (run Quirks.none s is).1.ended.isSome = true := by
+  induction is generalizing s with
+  | nil => simp [run] at h
+  | cons i is ih =>
+    simp only [run] at h ⊢
+    rcases List.mem_append.mp h with h | h
+    · exact run_ended_mono _ _ is ((step_ends s i).2 ⟨_, h, rfl⟩)
+    · exact ih _ h
+
+/-- the failure a failing branch's event reports for any attempt carries that branch's error -/
+theorem event_fail_error (q : Quirks) (s : Proto) (a i b : Nat) (e e' : Err) (hs : List Handled)
+    (h : Out.failAttempt b e' ∈ (step q s (.event a i (.fail e hs))).2) : e' = e := by
+  simp only [step, viaLookup] at h
+  have hq := lookup_simple q s a i
+  rcases hl : lookup q s a i with ⟨v, s1, outs⟩
+  rw [hl] at h hq
+  cases v with
+  | accept =>
+    simp only [continue_, List.mem_cons] at h
+    rcases h with h | h
+    · cases h
+    · rcases finish_mem _ _ _ h with h | h
+      · exact bub_fail_error _ _ _ _ _ _ _ _ _ h
+      · cases h
+  | dropped => have := hq _ h; cases this
+  | lost => have := hq _ h; cases this
+
 end Asl.FanProto
